@@ -179,6 +179,12 @@ def corpus_cases():
     add("long-formula-gfw", "SOLUTION\nAlkalinity 141.682 as " + "x" * 400 + "\nEND\n")
     add("advection-negative-cells", "ADVECTION\n-cells -5\n")
     add("raw-huge-number", "EXCHANGE_RAW 99999999999\n")
+    add("long-kinetics-name", "KINETICS\n" + "a" * 300 + "\n")
+    add("long-basic-line", "RATES\nR1\n\"" + "y" * 300 + "\"\nSOLUTION\nKINETICS\nR1\n")
+    add("ss-unknown-then-components", "SOLID_SOLUTIONS\nss\n-comp\n")
+    add("advection-cells-minus-one", "ADVECTION\n-cells -1\n")
+    C.append(mk_case("corpus", "long-species-equation-db", [("loaddb", b"db_long.dat")], sw=[("errstr", 1)],
+                     files={"db_long.dat": b"SOLUTION_SPECIES\nMn+2 + 2 NO3- = Mn(NO3)2" + b" a" * 200 + b"\n"}))
     C.append(mk_case("corpus", "kinetics-constant-rate", [("run", HANG_INPUT)], sw=[("errstr", 1)], timeout=5))
     C.append(mk_case("corpus", "load-missing-after-warning", [("loaddb", b"/nonexistent_dir_c08/x.dat")], sw=[("errstr", 1)], pre=[("run", WARN_PRE)]))
     C.append(mk_case("corpus", "load-missing-fresh", [("loaddb", b"/nonexistent_dir_c08/x.dat")], sw=[("errstr", 1)]))
